@@ -107,6 +107,17 @@ def one_build(ctx, res, w, assign, out_state, out_ext, lines, expect, cases, con
         elif kind == 'missing':
             argv += ['--' + s, os.path.join(ctx.tmp, 'does_not_exist.p8')]
             model_secs[i] = '%d,0,0,1,0' % (i + 1)
+        elif kind == 'empty':
+            argv += ['--' + s, '']                      # an empty file name (e.g. an unset shell variable): a file that does not exist
+            model_secs[i] = '%d,0,0,0,0' % (i + 1)
+        elif kind == 'empty-both':
+            argv += ['--' + s, '', '--empty-' + s]
+            model_secs[i] = '%d,1,0,0,0' % (i + 1)
+        elif kind == 'luaext':
+            bad = os.path.join(ctx.tmp, 'code%d.lua' % w.n)   # a .lua file is a source for the lua section only
+            open(bad, 'wb').write(b'x=1\n')
+            argv += ['--' + s, bad]
+            model_secs[i] = '%d,0,1,0,1' % (i + 1)
         elif kind == 'ext':
             bad = os.path.join(ctx.tmp, 'wrong%d.txt' % w.n)
             open(bad, 'wb').write(b'x')
@@ -185,7 +196,7 @@ def run(ctx, res):
         one_build(ctx, res, w, a, out_state, out_ext, lines, expect, cases)
         res.count('builds')
     for s in SECS:
-        for kind in ('both', 'missing', 'ext'):
+        for kind in ('both', 'missing', 'ext', 'empty', 'empty-both') + (('luaext',) if s != 'lua' else ()):
             for out_state in ('absent', 'exists'):
                 a = dict((t, rng.choice(['u', 'e'])) for t in SECS)
                 a[s] = 'u'
